@@ -252,3 +252,45 @@ def normal_init(b, strdur):
     if kind in CAL_KINDS:
         return {'state': cfg_state(b), 'output': '?', 'timer': None, 'enters': 0}
     raise ValueError(f"unknown kind {kind}")
+
+
+def apply_event(b, state, ev, data, strdur):
+    """
+    An FSM that is at rest in the internal state 'state' (as restored from the storage; any
+    timer of that state is running) handles the event ev/data as a normal event. Returns
+      {'error': kind}                      the model predicts that the handler fails, or
+      {'accepted': False}                  rejected: nothing changes, the old timer keeps running
+      {'accepted': True, 'state': (name, sdata), 'output', 'timer': duration|None, 'enters': n}
+    The exit / entry actions of THIS transition do run (the block is initialised), the timer of
+    the left state is cancelled and the new state's timer (if any) is started now.
+    """
+    parts = split_fsm_state(state)
+    if parts is None or not is_fsm(b['kind']):
+        return {'error': 'not-an-fsm-state'}
+    name, _ts, sdata = parts
+    model = make_fsm_model(b, strdur)
+    if name not in model.states:
+        return {'error': 'unknown-state'}
+    model.state = name
+    known, out = output_of(b, state)
+    if not known:
+        return {'error': 'output-unknown'}
+    model.output = out
+    model.has_timer = parts[1] is not None
+    if b['kind'] == 'inputexp':
+        model.value = sdata.get('input')
+    try:
+        accepted = model.event(ev, dict(data))
+    except ModelError as err:
+        return {'error': err.kind}
+    if not accepted:
+        return {'accepted': False}
+    enters = [e for e in model.log if e[0] == 'enter' and e[1] == 'method']
+    new_sdata = dict(sdata)
+    if b['kind'] == 'gfsm' and enters:
+        new_sdata['n'] = new_sdata.get('n', 0) + len(enters)
+        new_sdata['last'] = enters[-1][2]
+    elif b['kind'] == 'inputexp' and 'value' in data:
+        new_sdata['input'] = data['value']
+    return {'accepted': True, 'state': (model.state, new_sdata), 'output': model.output,
+            'timer': model.timer[0] if model.timer is not None else None, 'enters': len(enters)}
